@@ -1,5 +1,7 @@
 #!/bin/sh
 # Runs every seeded change against the check of its property (quick tier); prints one line each.
+bak=$(mktemp -d); cp -r /verif/evidence $bak/
+trap 'git -C /repo checkout -- . ; rm -rf /verif/evidence; cp -r $bak/evidence /verif/evidence; rm -rf $bak' EXIT INT TERM
 for d in /verif/seeded/*/; do
   name=$(basename $d)
   prop=$(python3 -c "import json;print(json.load(open('$d/meta.json'))['property'])")
